@@ -24,7 +24,7 @@ func cases(tier string, seed int64) []fw.Case {
 	}
 	var cs []fw.Case
 	for i := 0; i < n; i++ {
-		cs = append(cs, fw.MkCase(fmt.Sprintf("hist-%03d", i), seed*1000003+int64(i)*7919+14, params{Steps: steps, NVals: 4 + i%5}))
+		cs = append(cs, fw.MkCase(fmt.Sprintf("hist-%03d", i), seed*1000003+int64(i)*7919+14, params{Steps: steps, NVals: 4 + i%5, LateFees: i%4 == 2}))
 	}
 	return cs
 }
@@ -50,7 +50,7 @@ func init() {
 		Exhaustive: func(string) bool { return false },
 		Cases:      cases,
 		Run:        runHistory,
-		MinCounters: []string{"assign_checked", "whatif_assign_checked", "assign_checked_mev", "noeligible_fail_checked", "relay_queries", "relay_state/relayable", "relay_state/sender", "relay_state/estimate", "relay_state/reported", "relay_state/valset", "discr_sender_blockers_all_other_assignee", "discr_sender_blockers_all_unestimated", "fee_checked", "fee_ceil_discriminating", "assign_kind/skyway-batch", "assign_kind/valset",
+		MinCounters: []string{"late_fee_histories", "assign_checked", "whatif_assign_checked", "assign_checked_mev", "noeligible_fail_checked", "relay_queries", "relay_state/relayable", "relay_state/sender", "relay_state/estimate", "relay_state/reported", "relay_state/valset", "discr_sender_blockers_all_other_assignee", "discr_sender_blockers_all_unestimated", "fee_checked", "fee_ceil_discriminating", "assign_kind/skyway-batch", "assign_kind/valset",
 			"fee_unavailable_at_quorum", "fee_unavailable_elected_after_repair", "relay_offered_fee_payer_with_fees"},
 		Workers:  16,
 		TimeoutS: 900,
